@@ -24,17 +24,21 @@ Variable p : slice.
 Hypothesis Hwf : wf p.
 Hypothesis Hok : bytes_ok (arr p).
 Variable lim : nat.
-Hypothesis Hlim : (64 * len p <= lim)%nat.
+Hypothesis Hlim : (255 <= lim)%nat.
 
 (* a name the decoder returns is a name the reference reads, and it is within the lifted limit *)
+Lemma dotfree_presentable ls : Forall dotfree ls -> presentable ls = true.
+Proof.
+  unfold presentable. rewrite forallb_forall, Forall_forall. intros H l Hl. apply negb_true_iff. apply existsb_dot. auto.
+Qed.
+
 Lemma rr_name_sound off buffer name endq : rr_decode_name p off buffer = Ok (name, endq) ->
-  exists ls, ref_decode (view p) off = Some (ls, endq) /\ name = dotted ls /\ (wire_len ls <= lim)%nat.
+  exists ls, ref_decode (view p) off = Some (ls, endq) /\ name = dotted ls /\ name_ok lim ls = true.
 Proof.
   unfold rr_decode_name. intros H. apply bind_ok_inv in H as ([[n nx] b] & Hn & H). cbn [fst snd] in H.
-  inversion H; subst. apply name_sound in Hn as (ls & Hna & Hd); auto.
+  inversion H; subst. apply name_sound_limits in Hn as (ls & Hna & Hd & Hdf & Hw); auto.
   exists ls. split; [apply ref_decode_iff; auto using bytes_ok_view|]. split; [exact Hd|].
-  pose proof (name_at_wire_len _ _ _ _ (bytes_ok_view _ Hok) Hna) as Hw.
-  rewrite view_length in Hw by exact Hwf. lia.
+  unfold name_ok. apply andb_true_iff. split; [apply Nat.leb_le; lia|apply dotfree_presentable; exact Hdf].
 Qed.
 
 Lemma rr_step_sound buffer off e nx u e' e'' :
@@ -55,7 +59,7 @@ Proof.
   assert (Hrr : ref_rr_at lim (view p) off =
                 Some (mkRR ls t (be16 (nth (endq + 2) (arr p) 0) (nth (endq + 2 + 1) (arr p) 0)) ttl (endq + 10) (N.to_nat dl),
                       (endq + 10 + N.to_nat dl)%nat)).
-  { subst t dl. unfold ref_rr_at. rewrite Hdec. destruct (Nat.leb_spec (wire_len ls) lim); [|lia].
+  { subst t dl. unfold ref_rr_at. rewrite Hdec, Hw.
     rewrite !u16_at_view_some by (auto; lia). rewrite Httl. rewrite view_length by exact Hwf.
     match goal with |- context [Nat.leb ?a ?b] => destruct (Nat.leb_spec a b); [reflexivity|lia] end. }
   assert (Hnx' : nx = (endq + 10 + N.to_nat dl)%nat).
@@ -77,15 +81,13 @@ Proof.
   { destruct (N.eqb_spec dl 16) as [->|]; [|discriminate]. cbn. discriminate. }
   destruct (N.eqb_spec t 5) as [T5|T5].
   { destruct (rr_decode_name p (endq + 10) buffer) as [[cn cend]|?| |] eqn:Hc; try discriminate.
-    destruct (rr_name_sound _ _ _ _ Hc) as (cls & Hcd & _ & Hcw). rewrite Hcd.
-    destruct (Nat.leb_spec (wire_len cls) lim); [discriminate|lia]. }
+    destruct (rr_name_sound _ _ _ _ Hc) as (cls & Hcd & _ & Hcw). rewrite Hcd, Hcw. discriminate. }
   destruct (N.eqb_spec t 12) as [T12|T12]; [|discriminate].
   destruct (reverse_v4 ls) as [ip|] eqn:R; [|discriminate].
   rewrite (ptr_owner_spec ls (reverse_v4_dotfree _ _ R)), R in H. cbn [option_map] in H.
   destruct (reverse_v4_shape _ _ R) as (a4 & b4 & c4 & d4 & ->). cbn [rev app] in H.
   destruct (rr_decode_name p (endq + 10) buffer) as [[pn pend]|?| |] eqn:Hp; try discriminate.
-  destruct (rr_name_sound _ _ _ _ Hp) as (pls & Hpd & _ & Hpw). rewrite Hpd.
-  destruct (Nat.leb_spec (wire_len pls) lim); [discriminate|lia].
+  destruct (rr_name_sound _ _ _ _ Hp) as (pls & Hpd & _ & Hpw). rewrite Hpd, Hpw. discriminate.
 Qed.
 
 Lemma decodeRRs_loop_sound buffer : forall count off u e endoff u' e',
@@ -110,8 +112,15 @@ Proof.
   destruct (decodeQuestion p 12 _) as [[q index]|x| |] eqn:Hq; try discriminate.
   pose proof Hq as Hq0. unfold decodeQuestion in Hq0. rewrite be16_at_ok in Hq0 by lia. cbn [bind] in Hq0.
   destruct (N.eqb_spec (be16 (nth 4 (arr p) 0) (nth (4 + 1) (arr p) 0)) 1) as [Hqd|]; [|discriminate]. clear Hq0.
+  pose proof Hq as Hq1. unfold decodeQuestion in Hq1. rewrite be16_at_ok in Hq1 by lia. cbn [bind] in Hq1.
+  destruct (negb _) in Hq1; [discriminate|]. destruct (Z.ltb _ _) in Hq1; [discriminate|].
+  apply bind_ok_inv in Hq1 as ([[qn qe] qb] & Hqn1 & _). unfold decodeNameZ in Hqn1.
+  destruct (Z.leb _ _) in Hqn1; [discriminate|]. destruct (Z.ltb _ _) in Hqn1; [discriminate|].
+  change (Z.to_nat 12) with 12%nat in Hqn1.
+  apply name_sound_limits in Hqn1 as (ls0 & Hna0 & _ & Hdf0 & Hw0); auto.
   apply question_sound in Hq as (_ & ls & n & Hna & Hqn & Hty & Hcl & ->); auto.
   change (Z.to_nat 12) with 12%nat in Hna.
+  destruct (name_at_det _ _ _ _ _ _ Hna0 Hna) as [-> _].
   destruct (decodeAnswers p _ _ _) as [r e'] eqn:Ha. intros H.
   assert (exists endoff u, r = Ok (endoff, u)) as (endoff & u & ->).
   { destruct r as [[eo uu]|x| |]; try (cbn in H; discriminate). eauto. }
@@ -128,8 +137,8 @@ Proof.
   unfold ref_question_at.
   assert (Hdec : ref_decode (view p) 12 = Some (ls, n)) by (apply ref_decode_iff; auto using bytes_ok_view).
   rewrite Hdec.
-  pose proof (name_at_wire_len _ _ _ _ (bytes_ok_view _ Hok) Hna) as Hw. rewrite view_length in Hw by exact Hwf.
-  destruct (Nat.leb_spec (wire_len ls) lim); [|lia].
+  assert (name_ok lim ls = true) as ->.
+  { unfold name_ok. apply andb_true_iff. split; [apply Nat.leb_le; lia|apply dotfree_presentable; exact Hdf0]. }
   rewrite Hty, Hcl. fold an. rewrite Hrrs, Hb. eauto.
 Qed.
 
